@@ -97,6 +97,7 @@ def _kf_namespace(values, param, pidx, exc, site, symbolic, h):
         return s.startswith(p)
     ns['startswith'] = startswith
     ns['H'] = sys.modules.get(h.module)
+    ns['h_name'] = h.name
     ns['v'] = values
     for k, val in values.items():
         if k.isidentifier() and k not in ns:
